@@ -211,6 +211,13 @@ func propC11(c *Ctx) {
 	ros := c.Rule("own-storage", "the instruction stream stored into a converted function is storage built by that conversion, never a buffer shared between conversions", 1)
 	ruleOwnStorage(c, ros, convSSA)
 
+	rcf := c.Rule("copy-all-fields", "a decoder that publishes a Bytecode field by field copies every field (file set included, or positions are lost)", 0)
+	ruleCopyAllFields(c, rcf)
+	if vf := getVMFacts(c, rcf); vf != nil {
+		rod := c.Rule("operand-decode", "multi-byte operands (version 1 jump targets are two bytes) are assembled from unsigned bytes in big-endian order by ReadOperands and the VM", 10)
+		ruleOperandDecode(c, rod, vf, "")
+	}
+
 	// ---- all-funcs ----------------------------------------------------------------------------------
 	ra := c.Rule("all-funcs", "conversion is applied to Main and, in a loop over all constants, to every *CompiledFunction constant", 1)
 	{
